@@ -908,6 +908,11 @@ class ServiceFacts:
                     if a is None:
                         return False
                     sites += 1
+                    if isinstance(a, ast.Name) and a.id not in other.params:
+                        # a local bound (only) to such a comprehension
+                        defs = [st.value for st in walk_no_nested(other.node) if isinstance(st, ast.Assign) and any(isinstance(t, ast.Name) and t.id == a.id for t in st.targets)]
+                        if defs and all(isinstance(d, ast.ListComp) and isinstance(d.elt, ast.Attribute) and d.elt.attr == attr for d in defs):
+                            a = defs[0]
                     ok = isinstance(a, ast.ListComp) and isinstance(a.elt, ast.Attribute) and a.elt.attr == attr
                     if not ok and isinstance(a, ast.Name) and a.id in other.params and other.name == fn.name:
                         ok = True  # forwarding its own parameter (same helper in a sibling class)
